@@ -41,6 +41,26 @@ NEEDS = {
  "C19-B": ("partial-correlation design matrix centred by the grand mean", ">= 2 conditioning variables with different means", "C19 pearsonr.value vs residual form"),
  "C20-A": ("to_joint_gaussian pairs coefficients with the graph's parent order", "CPD evidence order different from edge insertion order, unequal coefficients", "C20 joint.mean / joint.covariance"),
  "C20-B": ("in-place Gaussian product/divide keeps the stale cached precision matrix", "precision_matrix / canonical form read after an in-place operation", "C20 inplace.precision"),
+ "C01-C": ("DiscreteFactor.product fast path for nested scopes transposes with the inverse permutation", "two factors sharing >= 3 variables in a rotated relative axis order (family with >= 3 parents), non-greedy elimination order", "C01 VE.Eliminate.phi.value / result.value (fam3two shape); C04 product (4-variable pool)"),
+ "C01-D": ("_virtual_evidence helper writes the auxiliary state into the caller's evidence dict", "evidence dict passed together with virtual evidence and reused", "C01 evidence_argument_changed (missed at first: one caller-owned dict per case); C16"),
+ "C02-C": ("belief-update division transposes mu with the inverse axis permutation", "sepset of >= 3 variables whose axis orders differ by a 3-cycle", "C02 bp_send beta.value / calibrate raises (missed at first: k5m / wheel5 / core3x3 shapes, hand-built junction trees)"),
+ "C02-D": ("calibration stops after the first sweep without a changed message", "non-star clique tree with >= 4 cliques and an unlucky root order", "C02 bp_beliefs not_proportional_to_marginal"),
+ "C03-C": ("predict(stochastic=False) takes per-variable posterior modes", ">= 2 missing columns whose joint mode differs from the marginal modes", "C03 not_a_maximiser (engine predict)"),
+ "C03-D": ("BeliefPropagation._query treats any existing beliefs as sum-calibrated", "max_calibrate() then map_query on a proper sub-tree", "C03 not_a_maximiser after max_calibrate (missed at first); C16; C02"),
+ "C04-C": ("__eq__ realigns permuted state orders with the inverse permutation", "a shared variable with >= 3 states listed in rotated order", "C04 eq.value (missed at first: equality is asked again on re-labelled copies)"),
+ "C04-D": ("FactorSet.product puts the operand's factor objects into the result", "product, then in-place marginalize of the result, then look at the operand", "C04 FactorSet frame.members (missed at first: Gen_C04S machine added)"),
+ "C05-C": ("to_factor shares the state-name maps with the CPD", "in-place operation on the returned factor, then use of the CPD by name", "C05 frame.state_names"),
+ "C05-D": ("check_model compares the SETS of state names of parent and child view", "same names in another order", "C05 accepts_invalid (missed at first: state_order defect added to Gen_C05V)"),
+ "C06-C": ("MLE serial fast path drops weighted=", "get_parameters / fit with weighted=True, n_jobs=1", "C06 value (mle)"),
+ "C06-D": ("Dirichlet pseudo counts accumulated in place into the caller's float array", "float ndarray prior reused for a second call", "C06 argument_changed (missed at first: ndarray priors, frame check, repeated calls)"),
+ "C07-C": ("partial_samples columns aligned by index label", "partial_samples with a non-default index, first topological node not supplied", "C07 partial.columns_not_as_given (missed at first: partial / missing / xrepro events added)"),
+ "C07-D": ("simulate() masks missing values on a set-ordered column list", "include_missing=True with a seed, compared across PYTHONHASHSEED", "C07 repro.differs_across_hash_seeds (missed at first)"),
+ "C08-B": ("_get_ancestors_of memoised, not invalidated by edge / node removal", "query, remove_edge / remove_node / do(inplace), same query again", "C08 active_trail.set / ancestral.graph after edit events (missed at first: Trace_C08 became a state machine with edits)"),
+ "C08-C": ("get_markov_blanket drops the node itself by identity", "node argument equal but not identical to the stored name (tuple, large int, built string)", "C08 markov_blanket.set (missed at first: fresh-but-equal names in every concretisation)"),
+ "C15-C": ("JunctionTree.add_edge detects cycles by counting edges", "cycle-closing edge while another component exists", "C15 JunctionTree.add_edge returns_ok_expected_rejected"),
+ "C15-D": ("do(inplace=False) shares the untouched CPD objects", "do(), then remove_node / do(inplace=True) on either model", "C15 frame.cpd_scope"),
+ "C16-C": ("sampling weight cache keyed by node only (parent order differs between forward and likelihood-weighted sampling)", "one BayesianModelSampling object serving both kinds of call", "C16 bms.sample answer_differs_from_fresh_engine (missed at first by C16: sampling engine histories added); C07"),
+ "C16-D": ("same change as C03-D seen through query()", "max_calibrate() then query on a sub-tree", "C16 bp.query answer_differs_from_fresh_engine (missed at first by C16: engine operations added to the histories); C02"),
 }
 base = os.path.join(os.path.dirname(os.path.dirname(os.path.abspath(__file__))), "seeded")
 for sid in sorted(os.listdir(base)):
